@@ -867,8 +867,44 @@ func c31GenRec(r *vRand, flagPct int, idx int) c31Rec {
 			pos = r.Intn(len(rec.Hdrs) + 1)
 			rec.Hdrs = append(rec.Hdrs[:pos], append([]c31Hdr{{K: "LFS_BLOB_ALG", V: []byte(alg)}}, rec.Hdrs[pos:]...)...)
 		}
-		if r.Chance(10) { // a second flag header
-			rec.Hdrs = append(rec.Hdrs, c31Hdr{K: "LFS_BLOB", V: []byte("zz")})
+	}
+	// header lists are LISTS: the flag header 2-3 times at different positions with different
+	// values (null / empty / junk), LFS_BLOB_ALG repeated, ordinary keys repeated, case variants
+	ins := func(h c31Hdr) {
+		pos := r.Intn(len(rec.Hdrs) + 1)
+		rec.Hdrs = append(rec.Hdrs[:pos], append([]c31Hdr{h}, rec.Hdrs[pos:]...)...)
+	}
+	flaggedNow := false
+	for _, h := range rec.Hdrs {
+		if h.K == "LFS_BLOB" {
+			flaggedNow = true
+		}
+	}
+	if flaggedNow && r.Chance(40) {
+		n := r.Range(1, 2)
+		for i := 0; i < n; i++ {
+			switch r.Intn(4) {
+			case 0:
+				ins(c31Hdr{K: "LFS_BLOB", V: nil})
+			case 1:
+				ins(c31Hdr{K: "LFS_BLOB", V: []byte{}})
+			case 2:
+				ins(c31Hdr{K: "LFS_BLOB", V: []byte("zz")})
+			default:
+				ins(c31Hdr{K: "LFS_BLOB", V: r.Bytes(r.Range(1, 5))})
+			}
+		}
+	}
+	if flaggedNow && r.Chance(20) {
+		ins(c31Hdr{K: "LFS_BLOB_ALG", V: []byte([]string{"md5", "sha256", "none", "bogus", ""}[r.Intn(5)])})
+	}
+	if flaggedNow && r.Chance(20) {
+		ins(c31Hdr{K: []string{"lfs_blob", "Lfs_Blob", "LFS_blob", "LFS_BLOB ", " LFS_BLOB"}[r.Intn(5)], V: []byte("x")})
+	}
+	if len(rec.Hdrs) > 0 && r.Chance(25) { // an ordinary key repeated with another value
+		h := rec.Hdrs[r.Intn(len(rec.Hdrs))]
+		if h.K != "LFS_BLOB" && h.K != "LFS_BLOB_ALG" {
+			ins(c31Hdr{K: h.K, V: []byte{byte(r.Range(0x30, 0x39))}})
 		}
 	}
 	return rec
@@ -969,22 +1005,24 @@ func c31Clean(cs c31Case) c31Case {
 				b := &cs.Topics[ti].Parts[pi].Batches[bi]
 				for ri := range b.Recs {
 					rec := &b.Recs[ri]
-					flag := false
-					var hs []c31Hdr
-					for _, h := range rec.Hdrs {
-						if h.K == "LFS_BLOB" {
-							flag = true
-							continue
+					// only the FIRST LFS_BLOB / LFS_BLOB_ALG header decides checksum and algorithm
+					// (lfsFindHeaderValue): make those two harmless, keep every other entry
+					seenFlag, seenAlg := false, false
+					for hi := range rec.Hdrs {
+						h := &rec.Hdrs[hi]
+						if h.K == "LFS_BLOB" && !seenFlag {
+							seenFlag = true
+							if len(bytes.TrimSpace(h.V)) > 0 {
+								h.V = nil
+							}
 						}
-						if h.K == "LFS_BLOB_ALG" {
-							continue
+						if h.K == "LFS_BLOB_ALG" && !seenAlg {
+							seenAlg = true
+							if _, err := lfs.NormalizeChecksumAlg(string(h.V)); err != nil {
+								h.V = []byte("md5")
+							}
 						}
-						hs = append(hs, h)
 					}
-					if flag {
-						hs = append(hs, c31Hdr{K: "LFS_BLOB", V: nil})
-					}
-					rec.Hdrs = hs
 				}
 			}
 		}
@@ -1151,6 +1189,13 @@ func TestVerifC31(t *testing.T) {
 				plainB(1, c31Rec{Key: nil, Val: []byte{}, Ts: -5, Off: 7, Attr: -1, Hdrs: []c31Hdr{{K: "a", V: nil}, {K: "", V: []byte{}}}}),
 				plainB(2, c31Rec{Key: []byte{}, Val: nil, Ts: 1 << 40, Hdrs: []c31Hdr{{K: "x", V: []byte{}}}}, flagRec, c31Rec{Key: nil, Val: nil}),
 				plainB(4, flagRec, flagRec)}}}}}},
+			// header lists with repeated keys: the flag header two and three times (first / middle /
+			// last, null / empty / other values), LFS_BLOB_ALG twice, an ordinary key twice, case variants
+			{DefaultAlg: "sha256", MaxBlob: 1 << 20, Bucket: "bkt", Topics: []c31Topic{{Name: "orders", Parts: []c31Part{{Batches: []c31Batch{plainB(0,
+				c31Rec{Key: []byte("a"), Val: []byte("v1"), Hdrs: []c31Hdr{{K: "LFS_BLOB", V: nil}, {K: "x", V: []byte("1")}, {K: "LFS_BLOB", V: []byte("zz")}}},
+				c31Rec{Key: []byte("b"), Val: []byte("v2"), Hdrs: []c31Hdr{{K: "x", V: []byte("1")}, {K: "LFS_BLOB", V: []byte{}}, {K: "x", V: []byte("2")}, {K: "LFS_BLOB", V: nil}, {K: "lfs_blob", V: []byte("keep")}, {K: "LFS_BLOB", V: []byte("q")}}},
+				c31Rec{Key: []byte("c"), Val: []byte("v3"), Hdrs: []c31Hdr{{K: "LFS_BLOB_ALG", V: []byte("md5")}, {K: "LFS_BLOB", V: nil}, {K: "LFS_BLOB_ALG", V: []byte("bogus")}, {K: "", V: nil}, {K: "", V: []byte{}}, {K: "LFS_BLOB", V: []byte{}}}},
+				c31Rec{Key: []byte("d"), Val: []byte("v4"), Hdrs: []c31Hdr{{K: "x", V: []byte("1")}, {K: "x", V: []byte("1")}, {K: "Lfs_Blob", V: nil}}})}}}}}},
 			// malformed: NumRecords smaller than the records present
 			{DefaultAlg: "sha256", MaxBlob: 1 << 20, Bucket: "bkt", Topics: []c31Topic{{Name: "t", Parts: []c31Part{{Batches: []c31Batch{{Magic: 2, Recs: []c31Rec{flagRec, {Val: []byte("x")}}, NumAdj: -1}}}}}}},
 		}
